@@ -165,10 +165,10 @@ PL_NOTE = " The abstract protocol P/Log.v (superposed on P/Election.v) is tied t
 
 SPECS["C16"] = node_spec(
     "C16", ["hard", "timers", "msgs.vote"], "prevote",
-    "Props/C16.v: for every node state and every message, handling a pre-vote request leaves term and vote unchanged (all paths), and under the check-quorum lease a higher-term (pre)vote request that is not a forced transfer changes nothing and emits nothing. The node model is tied to src/raft.rs by the pointwise differential on term/vote/role/leader/timers and vote traffic of every simulated call.",
-    "the pre-candidate term clause and the cluster-level non-disruption window theorem are not yet proved; they are exercised only by the differential and the monitor.",
+    "Props/C16.v (62 pinned statements, every node state and every message unless said otherwise): handling a pre-vote request never changes term or vote (all paths), with the four paths given exactly (lease drop; lower-term explicit reject; grant = one response, no vote recorded, election timer not reset, role and leader untouched; reject + commit fast-forward); the pre-vote campaign leaves term and vote unchanged and queues exactly one MsgRequestPreVote (term+1, last index/term) per other voter; a COMPLETE case analysis of when the term changes over one step for every role and message (unchanged | raised by one by the node itself in three listed situations | a higher message term adopted, for every type except pre-vote requests, granted pre-vote responses and lease-dropped requests), read off for a PreCandidate, and in trace form: over any sequence of steps and ticks that are 'quiet' in the states they meet (no adoptable higher term, no transfer, no pre-vote quorum) the term never changes, whatever roles the node passes through; a rejected pre-vote response with a higher term makes the receiver a follower of that term; inside the check-quorum lease any number of higher-term non-transfer (pre-)vote requests leaves the state identical (trace form); a leader never changes term on messages of its own or a lower term, and steps down only at an election-timeout boundary with no quorum recently active (trace form); a majority follower whose leader's heartbeats arrive on schedule keeps term, vote, leader and lease whatever (pre-)vote requests arrive in between. One requested statement is REFUTED with a witness (a Candidate/PreCandidate receiver of a pre-vote request may abandon its campaign through the commit fast-forward when that reveals an unapplied membership change; term and vote still unchanged; intentional per the source comment).",
+    "the cluster-level clause as one multi-node theorem (while a leader and a majority exchange heartbeats on schedule no behaviour of the remaining nodes makes that leader step down or the majority's terms change) is not proved: its per-node halves are (lease, leader window, follower window), but not that 'quiet'/'on schedule' inputs are what a partitioned node / a majority member actually receive; it is exercised by the prevote monitor's dedicated isolate/campaign/crash/rejoin scenario in the search.",
     "DESIGN.md section 7, C16",
-    "Theorems: Props/C16.v (per-step, unbounded over states and messages). Tie: pointwise differential of M/Raft.v against RawNode on simulated executions, projection hard+timers+vote traffic.")
+    "Theorems: Props/C16.v over M/Raft.v (per step, per tick, and over arbitrary input sequences). Tie: pointwise differential, projection hard+timers+vote traffic.")
 
 SPECS["C03"] = node_spec(
     "C03", ["hard", "msgs.vote", "log"], "vote_restriction",
